@@ -176,7 +176,7 @@ fn run_e1_property(id: &str, thorough: bool, ev: &mut Evidence, t0: Instant) {
         fams.push(families::f3r(&families::KINDS6, "RDErde"));
         fams.push(families::f4w(&families::KINDS6B, "RCErce"));
     } else {
-        fams.push(families::f3w(Some(&families::QUICK_ANCHORS5), &families::KINDS8, "5 windows (a1 corner, h8 corner, c3-centred, f6-centred, centre), kinds RCDErcde"));
+        fams.push(families::f3w(Some(&families::QUICK_ANCHORS5), &families::KINDS6B, "5 windows (a1 corner, h8 corner, c3-centred, f6-centred, centre), kinds RCErce (three strength levels incl. the rabbit; every per-type code path is already covered on every square by F2)"));
     }
     let mut first_f1: Option<report::Stats> = None;
     if id == "C03" {
